@@ -180,6 +180,31 @@ func runCodec(r *prng, count int) {
 	}
 	emit(jExh{Kind: "exhaustive", What: "sync round-trip: all 65536 identifiers in a 3-member view", Count: n, Failures: fail, First: first})
 
+	// the per-topic tag stands for the sender's identifier in every synchronisation message: over all 65536 identifiers the
+	// tags of one topic must be pairwise different (two members with one tag cannot both be heard) and equal to the
+	// independently computed HMAC-SHA256(topic, identifier)
+	fail, first, n = 0, "", 0
+	tkey := r.bytes(32)
+	seenTag := make(map[string]int, 65536)
+	for s := 0; s < 65536; s++ {
+		n++
+		tg := string(discovery.VerifPRF(tkey, uint16(s)))
+		bad := ""
+		if prev, dup := seenTag[tg]; dup {
+			bad = fmt.Sprintf("identifiers %d and %d have the same tag", prev, s)
+		} else if tg != string(discTag(tkey, uint16(s))) {
+			bad = fmt.Sprintf("tag of identifier %d is not HMAC-SHA256(topic, identifier)", s)
+		}
+		seenTag[tg] = s
+		if bad != "" {
+			fail++
+			if first == "" {
+				first = bad
+			}
+		}
+	}
+	emit(jExh{Kind: "exhaustive", What: "membership tags: all 65536 identifiers of one topic pairwise different and as specified", Count: n, Failures: fail, First: first})
+
 	// ---- model = implementation: structured stream
 	for i := 0; i < count; i++ {
 		dl := []int{1, 2, 7, 8, 9, 32, 33}[r.intn(7)]
